@@ -259,8 +259,11 @@ class Episode:
         srch = self.sched.searcher
         state = pickle.loads(pickle.dumps(srch.get_state()))
         new = srch.clone_from_state(state)
-        self.sched._searcher = new if hasattr(self.sched, "_searcher") else None
-        if not hasattr(self.sched, "_searcher"):
+        # the clone is installed the way a scheduler installs a searcher object
+        new.configure_scheduler(self.sched)
+        if hasattr(self.sched, "_searcher"):
+            self.sched._searcher = new
+        else:
             self.sched.searcher = new
 
     def trace(self, tid):
